@@ -296,6 +296,18 @@ where
     .boxed()
 }
 
+/// entry point for the fuzz target: the same history check, Lmer width chosen at run time
+pub fn check_history(words: usize, c: &Case) -> CheckResult {
+    match words {
+        1 => history::<[u64; 1]>(c),
+        2 => history::<[u64; 2]>(c),
+        3 => history::<[u64; 3]>(c),
+        4 => history::<[u64; 4]>(c),
+        5 => history::<[u64; 5]>(c),
+        _ => history::<[u64; 6]>(c),
+    }
+}
+
 #[cfg(not(fuzzing))]
 pub fn jobs(_env: &Env) -> Vec<Box<dyn Job>> {
     vec![
